@@ -345,7 +345,7 @@ def _leaf_name(ex):
 
 
 def explore(ctx: runner.Ctx):
-    n = ctx.budget(8000, 300000)
+    n = ctx.budget(16000, 300000)
     ctx.given(st_case(GEN), lambda c: check_case(ctx, c), int(n * 0.8))
     ctx.given(st_case(GEN_DEEP), lambda c: check_case(ctx, c), max(1, int(n * 0.2)), seed_offset=1)
 
